@@ -112,11 +112,11 @@ def coq_case(c):
         exact = not any(10 in (x["cmd"] or []) or 10 in (x["desc"] or []) or 13 in (x["cmd"] or []) or 13 in (x["desc"] or []) for x in exp)
     return ("KSearch {| s_format := \"%s\"; s_no_color := %s; s_accepted := %s; s_limit_ok := %s; s_limit := %s; s_engine := %s; s_recovery := %s; "
             "s_printed := %s; s_exact := %s; s_json_ok := %s; s_stdout := %s; s_exit := %s; s_panic := %s; s_hist_before := %s; s_hist_after := %s; "
-            "s_hist_last := %s; s_hist_last_n := %s; s_clean := %s |}") % (
+            "s_hist_last := %s; s_hist_last_n := %s; s_clean := %s; s_query := %s; s_limit_arg := %s; s_default := %s |}") % (
         c.get("format") or "list", core.cbool(c["no_color"]), core.cbool(c["accepted"]), core.cbool(c["limit_ok"]), core.cz(c["limit"]),
         it(c.get("engine")), it(c.get("recovery")), pr, core.cbool(exact), core.cbool(json_ok), core.cbytes(bytes(c.get("stdout") or [])),
         core.cz(c["exit"]), core.cbool(c["panic"]), core.cz(c["hist_before"]), core.cz(c["hist_after"]), core.cbytes(bytes(c.get("hist_last") or [])),
-        core.cz(c["hist_last_n"]), core.cbytes(bytes(c.get("clean") or [])))
+        core.cz(c["hist_last_n"]), core.cbytes(bytes(c.get("clean") or [])), core.cbytes(bytes(c.get("q") or [])), core.cz(c.get("limit_arg", 0)), core.cz(c.get("default_limit", 5)))
 
 
 def keep(c):
@@ -140,6 +140,6 @@ def sample(c):
 def finding_key(c, r):
     return None
 
-LEVEL_TEXT = "Theorems (Props/C17.v): a command tree accepted by flags_ok has no command whose merged flag set lets two different flags share a shorthand (the condition under which cobra panics at start-up) - re-established on every run by evaluating flags_ok on the tree reflected from the built code; the CLI prints the engine's results when there are any, else the recovery results cut to the limit, never more than the limit; its stable re-sort does not reorder a ranked answer; a search leaves its query as the newest history entry. Tied to the code by running the BUILT binary in an isolated home: every sub-command with hostile arguments (no panic), and searches whose printed items (list / table / JSON) are compared with the engine's in-process answer for the same inputs, JSON parsed, ESC bytes searched under --no-color / NO_COLOR, history file read back."
+LEVEL_TEXT = "Theorems (Props/C17.v): the search command as a whole (Model/SearchCommand.v, any engine and recovery search) - an accepted query is searched and recorded as the validated text itself, what is printed is the answer for that text, the history ends with one entry for it with the printed count, a rejected query or limit searches, prints and records nothing (run on every search case with the observed answers); a command tree accepted by flags_ok has no command whose merged flag set lets two different flags share a shorthand (the condition under which cobra panics at start-up) - re-established on every run by evaluating flags_ok on the tree reflected from the built code; the CLI prints the engine's results when there are any, else the recovery results cut to the limit, never more than the limit; its stable re-sort does not reorder a ranked answer; a search leaves its query as the newest history entry. Tied to the code by running the BUILT binary in an isolated home: every sub-command with hostile arguments (no panic), and searches whose printed items (list / table / JSON) are compared with the engine's in-process answer for the same inputs, JSON parsed, ESC bytes searched under --no-color / NO_COLOR, history file read back."
 LEVEL_NOTE = "Partial: cobra/pflag, fmt and encoding/json are third-party / runtime (merge rule modelled; output recovered by the harness's parser). Trusted: Coq kernel; FloatAxioms for the re-sort lemma; harness."
 TECHNIQUE = "Coq proof (flag-merge soundness, CLI composition) + regenerated command-tree table + differential runs of the built binary"
